@@ -19,8 +19,9 @@ RULE = ('bodies from the G-doc grammar (safe text policy; paragraphs, headings, 
         'complete iff a non-control key is present; R3 other keys (any values, any order) never change the snippet; R4 control keys change '
         'only what they document (base header level shifts <hN>; language keys leave a smart-less, note-less snippet unchanged). '
         'Also: tiny bodies of emphasis markers and quotes that start at byte 0 of the text (what precedes the text -- nothing or a metadata block -- must not matter). Non-trivial: body with >=2 blocks and >=1 metadata key; distinct by (source, format, extensions).')
-ASSUMPTIONS = ['generated glossary definitions never cite (known finding R1:...:glossary-definition-cites, reproduced by its committed seed only)',
-               'bibtex, mmd header/footer and transclude base are never generated (documented to act on body/input; C06/C13 exercise them)',
+ASSUMPTIONS = ['a bibtex key counts for the complete-document decision like an ordinary key and for the body like a control key',
+               'generated glossary definitions never cite (known finding R1:...:glossary-definition-cites, reproduced by its committed seed only)',
+               'mmd header/footer and transclude base are never generated (documented to act on body/input; C06/C13 exercise them)',
                'bodies contain no [%key] variables; the first body line never has the shape `key: value`',
                'EXT_COMPLETE and EXT_SNIPPET are applied one at a time, as in the statement']
 
@@ -71,7 +72,7 @@ def sanitize_val(v):
 def strategy(tier):
     other = st.lists(st.tuples(st.sampled_from(OTHER), VALS), min_size=0, max_size=5, unique_by=lambda t: t[0])
     ctrl = st.lists(st.sampled_from([('language', 'de'), ('language', 'fr'), ('quotes language', 'german'), ('quotes language', 'swedish'),
-                                     ('language', 'en'), ('latex mode', 'memoir')]), max_size=2, unique_by=lambda t: t[0])
+                                     ('language', 'en'), ('latex mode', 'memoir'), ('bibtex', 'refs')]), max_size=2, unique_by=lambda t: t[0])
     return st.fixed_dictionaries({
         # 'tiny': a few characters over markers that look at their left neighbour, placed at the very first byte of the body (what precedes
         # byte 0 of the text -- nothing, or a metadata block -- must not matter)
@@ -115,6 +116,10 @@ def check(case, ctx):
     B, is_corpus = body_text(case['body'])
     if '\x00' in B:
         return
+    if any(k == 'bibtex' for k, _ in case['ctrl']) and not is_corpus:
+        # with a bibtex key a citation key that the document does not define is left to BibTeX -- whatever the header switches say
+        B = B + ('' if B.endswith('\n') else '\n') + '\ncites [#Undefined2020] and [p. 3][#Other99].\n'
+        ctx.cls('bibtex_key_with_undefined_citations')
     ctx.cls('body_corpus' if is_corpus else ('body_tiny_at_byte_0' if 'tiny' in case['body'] else 'body_generated'))
     ctx.cls('fmt_' + fmt)
     other = [list(t) for t in case['other']]
@@ -147,7 +152,7 @@ def check(case, ctx):
     if idx < 0:
         raise Violation('R1:snippet-not-in-complete', 'fmt=%s ext=%#x\nsource=%r\nsnippet=%r\ncomplete=%r' % (fmt, ext, M + B, snip[-600:], comp[-900:]))
     # R2: default is one of the two; complete iff an "other" key is present
-    want_complete = bool(other)
+    want_complete = bool(other) or any(k == 'bibtex' for k, _ in ctrl)       # (a bibtex key asks for a complete document like any ordinary key)
     if dflt not in (snip, comp):
         raise Violation('R2:default-neither', 'fmt=%s source=%r\ndefault=%r' % (fmt, M + B, dflt[:600]))
     if comp != snip:
